@@ -11,6 +11,7 @@ from .. import specs, ref
 from ..core import fhex
 
 name = 'names'
+RAISE_ORACLE = 'I03.raise'
 B_POOL = ['Zeta', 'alpha', 'Beta_1', 'beta_1', 'GAMMA', 'gamma', 'delta', 'Delta', 'omega', 'Omega', 'x_1', 'X_1',
           'a', 'B', 'c', 'D', 'mu_b', 'MU_a', 'kappa 2', 'kappa.1']
 ALGOS = ['simple_bounds', 'simple_bounds_newton', 'scipy', 'TR-newton', 'LS-newton']
